@@ -272,9 +272,30 @@ def drive(case, stable=True, kill_at=None):
                     comp.engine.kill()
                     kill_info['killed'] = True
             pump(lambda: comp.engine.exitReason() is not None)
+        if comp.controllerState is not None and kill_at is None:
+            # a late restart request (e.g. a post-mortem handler that was still waiting) arrives after the component
+            # received its final state: it must be refused and no task may start
+            n_before = sum(h.H.launches.values()) + len([e for e in h.H.events if e['kind'] == 'launch-failed'])
+            kill_info['events_before_late'] = len(h.H.events)
+            d3 = []
+
+            def _late():
+                try:
+                    kill_info['late_code'] = comp.restart(reason=comp.engine.exitReason())
+                except Exception as e:  # noqa
+                    kill_info['late_code'] = 'raised:%s' % type(e).__name__
+                d3.append(1)
+
+            rt.spawn(_late, 'drv:late-restart')
+            pump(lambda: bool(d3))
+            t0 = rt.now
+            pump(lambda: not h.alternatives(rt) or rt.now - t0 > 90.0)
+            kill_info['late_launches'] = sum(h.H.launches.values()) + len(
+                [e for e in h.H.events if e['kind'] == 'launch-failed']) - n_before
+            kill_info['late_final'] = comp.state
         attempts = []
         hook_calls = []
-        for e in h.H.events:
+        for e in h.H.events[:kill_info.get('events_before_late')]:
             if e['kind'] == 'exit':
                 attempts.append(e['reason'])
             elif e['kind'] == 'launch-failed':
@@ -288,7 +309,7 @@ def drive(case, stable=True, kill_at=None):
 
 
 def run_case(col, case, stable=True):
-    attempts, final_state, hook_calls, steps, restarts, resub, rounds, errors, _ki = drive(case, stable)
+    attempts, final_state, hook_calls, steps, restarts, resub, rounds, errors, ki = drive(case, stable)
     col.evaluated()
     col.traces += 1
     col.transitions += len(attempts)
@@ -306,6 +327,15 @@ def run_case(col, case, stable=True):
     bad = judge(cc, attempts, final_state, False)
     if rounds > 60:
         bad.append(('the component kept restarting for more than 60 rounds: %r' % (attempts[:12],), 'C12:endless'))
+    if ki.get('late_launches'):
+        bad.append(('a restart request after the component received its final state started the task again (%d more '
+                    'submission(s); the request returned %s; state afterwards %s)' % (
+                        ki['late_launches'], ki.get('late_code'), ki.get('late_final')), 'C12:restart-after-final-state'))
+    elif 'late_code' in ki and ki.get('late_final') not in ('finished', 'failed', 'component_shutdown'):
+        bad.append(('after a refused late restart request the component lost its final state: %r' % (ki.get('late_final'),),
+                    'C12:late-restart-lost-final-state'))
+    if 'late_code' in ki:
+        col.count('late_restart_requests_after_final_state')
     col.outcome('attempts=%d final=%s' % (len(attempts), final_state))
     for why, sig in bad:
         col.fail(cc, why, {'attempts': attempts, 'final': final_state, 'hook_calls': hook_calls,
@@ -393,7 +423,9 @@ def kill_cases(thorough):
 # ------------------------------------------------------------------ part B: repeating components (RepeatingEngine.restart)
 def rep_cases(thorough):
     lasts = ['ResourceExhausted', 'KnownIssue', 'Success', 'SystemIssue']
-    seconds = ['ResourceExhausted', 'Success', 'KnownIssue']
+    # LaunchFails: the restart submission itself raises, after the backend kept the caller waiting for 12 s (a submission
+    # that fails at once is never noticed by the component - its state stream only carries changes - so nothing asks again)
+    seconds = ['ResourceExhausted', 'Success', 'KnownIssue', 'LaunchFails']
     for x in lasts:
         for y in seconds:
             for retries in ((0, 1) if not thorough else (0, 1, 2)):
@@ -405,7 +437,7 @@ def rep_cases(thorough):
 def run_rep_case(col, c):
     """A same-stage observer whose executions after its producer finished exit with `last`; if it is restarted the
     restarted task exits with `second`. Driven through the real Controller stage loop."""
-    from verif.vsched import harness as h
+    from verif.vsched import harness as h, runtime as vrt
     wa = {'repeatInterval': 7.0, 'repeatRetries': c['retries'], 'shutdownOn': list(NONSUCCESS)}
     if c['restartHookOn'] is not None:
         wa['restartHookOn'] = list(c['restartHookOn'])
@@ -426,6 +458,11 @@ def run_rep_case(col, c):
     orig = h.M.FakeTask.__init__
 
     def patched(self, job, **kw):
+        if job.reference == 'stage0.Obs' and 'outputFile' not in kw and c['second'] == 'LaunchFails':
+            h.ev('launch-failed', ref=job.reference, n=h.H.launches[job.reference], why='OSError', via='restart')
+            h.H.launches[job.reference] += 1
+            vrt.RT.yield_blocked(("sleep",), due=vrt.RT.now + 12.0)
+            raise OSError('scripted submission failure of the restart')
         orig(self, job, **kw)
         if job.reference == 'stage0.Obs' and 'outputFile' not in kw:
             self._planned = c['second']
@@ -437,10 +474,14 @@ def run_rep_case(col, c):
         h.M.FakeTask.__init__ = orig
     col.evaluated()
     col.traces += 1
-    launches = [e for e in x.events if e['kind'] == 'launch' and e['ref'] == 'stage0.Obs']
+    launches = [e for e in x.events if e['kind'] in ('launch', 'launch-failed') and e['ref'] == 'stage0.Obs']
     exits = {e['n']: e['reason'] for e in x.events if e['kind'] == 'exit' and e['ref'] == 'stage0.Obs'}
+    for k, e in enumerate(launches):
+        if e['kind'] == 'launch-failed' and e['n'] not in exits and k > 0:
+            # a failed restart submission leaves the exit reason of the previous task in place
+            exits[e['n']] = exits.get(launches[k - 1]['n'])
     col.transitions += len(launches)
-    restarts = [e for e in launches if e['via'] == 'restart']
+    restarts = [e for e in launches if e.get('via') == 'restart']
     on = c['restartHookOn'] if c['restartHookOn'] is not None else ['ResourceExhausted']
     m = c['maxRestarts'] if c['maxRestarts'] is not None else 3
     case = {'part': 'repeating', 'case': c}
